@@ -18,7 +18,11 @@ out = {"id": sid}
 
 
 def run(cmd, cwd=None, timeout=1800):
-    p = subprocess.run(cmd, shell=True, cwd=cwd, capture_output=True, text=True, timeout=timeout)
+    try:
+        p = subprocess.run(cmd, shell=True, cwd=cwd, capture_output=True, text=True, timeout=timeout, start_new_session=True)
+    except subprocess.TimeoutExpired:
+        subprocess.run("pkill -f '%s' || true" % cwd.replace("/", "[/]", 1) if cwd else "true", shell=True)
+        return 124, "timeout"
     return p.returncode, (p.stdout + p.stderr)[-1500:]
 
 
@@ -39,7 +43,10 @@ try:
         out["demo_patched_rc"] = rc1
         out["demo_patched_tail"] = o1[-400:]
         xml = "/tmp/seed_%s.xml" % sid
-        run("/venv/bin/python -m pytest -q -p no:cacheprovider --timeout=900 --continue-on-collection-errors --junitxml=%s" % xml, cwd=wt, timeout=3000)
+        for attempt in range(2):  # a suite run can hang in a multiprocessing test when the machine is overloaded
+            rcs, _ = run("/venv/bin/python -m pytest -q -p no:cacheprovider --timeout=900 --continue-on-collection-errors --junitxml=%s" % xml, cwd=wt, timeout=2400)
+            if rcs != 124 and os.path.exists(xml):
+                break
         base = json.load(open("/root/.vp/BASELINE.json"))
         stable = set(base["stable_pass"])
         passed = set()
